@@ -241,6 +241,51 @@ def run_c35(tier):
         res.cov["traces_validated_against_impl"] += 1
         res.sample({"script": script, "concretisation": conc.describe(), "background_loop": loop}, limit=3)
         shutil.rmtree(root, ignore_errors=True)
+    # ---- forced: shutdown while a request has queued its commands but not yet asked for the flush ----
+    npend = 0
+    for ci, var in enumerate([True, False, True]):
+        root = os.path.join(vlib.scratch(), "c35_pend%d" % ci)
+        if os.path.exists(root):
+            shutil.rmtree(root)
+        key = "PD%d/1Min/%s" % (ci, "TICK" if var else "OHLC")
+        base = 1577836800 + 86400 * 50
+        def wr(vals, eps):
+            cols = [{"name": "Epoch", "type": "i8", "vals": eps}, {"name": "V", "type": "i4", "vals": vals}]
+            if var:
+                cols.append({"name": "Nanoseconds", "type": "i4", "vals": [1000 + 977 * v for v in vals]})
+            return {"op": "write", "var": var, "via": "csm", "buckets": [{"key": key, "cols": cols}]}
+        first = wr([1, 2], [base, base + (0 if var else 60)])
+        pend = wr([3, 4, 5], [base + (0 if var else 120 + 60 * k) for k in range(3)] if not var else [base + 60] * 3)
+        actors = {"A": [pend], "S": [{"op": "shutdown"}]}
+        sched = [{"actor": "A", "until": "WriteCSM.beforeFlush", "label": "A queued its commands, flush not requested yet"},
+                 {"actor": "S", "until": "done", "label": "graceful shutdown"}]
+        ops = [{"op": "start", "root": root, "loop_wal_ms": rng.choice([600000, 3]), "loop_prim_ms": 600000}, first,
+               {"op": "play", "x": {"actors": actors, "gated": ["WriteCSM.beforeFlush"], "schedule": sched, "timeout_ms": 3000, "finish": False}},
+               {"op": "query", "dest": key}]
+        obs = vlib.run_cases(binary, [{"id": "w", "ops": ops}], timeout=300, tag="c35pend")
+        o = obs.get(json.dumps("w"))
+        replay = {"check": "walloop.c35.pending", "variable": var, "schedule": sched, "seed": vlib.seed()}
+        if o is None or (isinstance(o, dict) and "died" in o):
+            res.violation("server died during a graceful shutdown with a queued, not yet flushed request: %s" % str(o)[-300:], replay)
+            continue
+        if o[2].get("drift") or o[1].get("err"):
+            res.cov.setdefault("pending_scenario_drift", []).append(str(o[2].get("drift") or o[1].get("err"))[:200])
+            shutil.rmtree(root, ignore_errors=True)
+            continue
+        before = o[3]
+        robs = vlib.run_cases(binary, [{"id": "r", "ops": [{"op": "start", "root": root}, {"op": "query", "dest": key}]}], timeout=300, tag="c35pendr")
+        ro = robs.get(json.dumps("r"))
+        shutil.rmtree(root, ignore_errors=True)
+        if ro is None or (isinstance(ro, dict) and "died" in ro) or ro[0].get("panic") or ro[0].get("err"):
+            res.violation("restart after a graceful shutdown that found a queued request failed: %s" % str(ro)[-300:], replay)
+            continue
+        rb, ra = W.rows_of(before, key), W.rows_of(ro[1], key)
+        npend += 1
+        if rb != ra:
+            res.violation("query on %s differs across a graceful shutdown (with a queued, not yet flushed request) + restart: right after the shutdown %s, after the restart %s" % (
+                key, str(rb)[:300], str(ra)[:300]), replay)
+        res.cov["traces_validated_against_impl"] += 1
+    res.cov["shutdown_with_pending_request_scenarios"] = npend
     res.cov["shutdown_restart_histories"] = n
     res.cov["loop_events_observed"] = hooks
     res.assumptions += ["shutdown is requested after the last acknowledgement with a seeded delay of 0-11 ms while the real SyncWAL goroutine runs with "
